@@ -40,6 +40,14 @@ type SessOp struct {
 	To     int        `json:"to,omitempty"`
 	Via    int        `json:"via,omitempty"`
 	FailAt int        `json:"fail_at,omitempty"`
+	// round 6: render into a destination with room for Room more bytes, whose
+	// failing Write returns an error of classification ErrKind (Via viaRoom /
+	// viaRoomStringWriter); op "meta": a call that changes table state which is
+	// not content (Kind: see metaKindNames; object chosen by Row / Col; text Cells[0])
+	Room    int `json:"room,omitempty"`
+	ErrKind int `json:"err_kind,omitempty"`
+	Kind    int `json:"kind,omitempty"`
+	Col     int `json:"col,omitempty"`
 }
 
 // SessTable: how a table of the session comes to be.  Kind 0 = tabular.New(),
@@ -66,10 +74,13 @@ const (
 	viaPkgRenderTo         // csv.RenderTo(t, &bytes.Buffer{})
 	viaKeptCollect         // w.RenderTo(a collecting io.Writer that is not a buffer)
 	viaCallerBuffer        // w.RenderTo(buf) with ONE bytes.Buffer the caller Resets and reuses
+	viaRoom                // csv.RenderTo(t, a destination with room for op.Room bytes) (c05_r6.go)
+	viaRoomStringWriter    // w.RenderTo(the same kind of destination, also offering WriteString)
 	nVias
+	nBufVias = viaRoom // the entry points whose destination takes everything
 )
 
-var viaNames = []string{"csv.Render", "Wrap.Render", "kept.Render", "csv.RenderTo(buffer)", "kept.RenderTo(writer)", "kept.RenderTo(reused buffer)"}
+var viaNames = []string{"csv.Render", "Wrap.Render", "kept.Render", "csv.RenderTo(buffer)", "kept.RenderTo(writer)", "kept.RenderTo(reused buffer)", "csv.RenderTo(destination with limited room)", "kept.RenderTo(destination with limited room, WriteString)"}
 
 func viaIsString(v int) bool { return v == viaPkgRender || v == viaFreshWrap || v == viaKeptWrap }
 
@@ -163,9 +174,8 @@ func sessCells(items []ItemSpec) *[]VCell {
 			vc[i] = VCell{Text: string(it.B), Empty: len(it.B) == 0}
 			continue
 		}
-		v, _ := it.Make()
-		c := tabular.NewCell(v)
-		vc[i] = VCell{Text: c.String(), Empty: c.String() == ""}
+		txt := c05ItemText(it) // the documented text of the item, computed on the spec side (c05_r6.go)
+		vc[i] = VCell{Text: txt, Empty: txt == ""}
 	}
 	return &vc
 }
@@ -268,9 +278,9 @@ func runC05Session(ss C05Session) CaseOut {
 		}
 		switch op.Op {
 		case "header":
-			tabs[op.T].AddHeaders(makeItems(op.Cells)...)
+			tabs[op.T].AddHeaders(c05MakeItems(op.Cells)...)
 		case "row":
-			tabs[op.T].AddRowItems(makeItems(op.Cells)...)
+			tabs[op.T].AddRowItems(c05MakeItems(op.Cells)...)
 		case "sep":
 			tabs[op.T].AddSeparator()
 		case "share":
@@ -280,9 +290,14 @@ func runC05Session(ss C05Session) CaseOut {
 			}
 		case "extend":
 			row := tabs[op.T].AllRows()[op.Row]
-			for _, it := range makeItems(op.Cells) {
+			for _, it := range c05MakeItems(op.Cells) {
 				row.Add(tabular.NewCell(it))
 			}
+		case "meta":
+			if applyMeta(tabs[op.T], op) {
+				tags["meta="+metaKindNames[((op.Kind%len(metaKindNames))+len(metaKindNames))%len(metaKindNames)]] = true
+			}
+			continue
 		case "faulty":
 			cw := &collectWriter{failAt: op.FailAt}
 			capture(func() (string, error) { return "", kept[op.T].RenderTo(cw) })
@@ -292,6 +307,7 @@ func runC05Session(ss C05Session) CaseOut {
 			via := ((op.Via % nVias) + nVias) % nVias
 			v := si.view(op.T, ss.Tables[op.T].Declares)
 			var o Outcome
+			roomStep, roomFired := false, false
 			t, w := shown[op.T], kept[op.T]
 			switch via {
 			case viaPkgRender:
@@ -308,6 +324,17 @@ func runC05Session(ss C05Session) CaseOut {
 					err := w.RenderTo(cw)
 					return string(cw.acc), err
 				})
+			case viaRoom:
+				rw := &roomWriter{room: op.Room, errKind: op.ErrKind}
+				o = capture(func() (string, error) { err := csv.RenderTo(t, rw); return string(rw.held), err })
+				if o.Kind == "panic" {
+					o.Out = rw.held
+				}
+				roomStep, roomFired = true, rw.fired
+			case viaRoomStringWriter:
+				rw := &roomStringWriter{roomWriter{room: op.Room, errKind: op.ErrKind}}
+				o = capture(func() (string, error) { err := w.RenderTo(rw); return string(rw.held), err })
+				roomStep, roomFired = true, rw.fired
 			default:
 				o = capture(func() (string, error) {
 					callerBuf.Reset()
@@ -322,7 +349,21 @@ func runC05Session(ss C05Session) CaseOut {
 				viewIdx[vc] = vi
 				views = append(views, vc)
 			}
-			steps = append(steps, cqPair(cqNat(vi), o.Coq()))
+			if roomStep {
+				held := "[]"
+				if o.Kind == "err" {
+					held = cqBytes(o.Out)
+				}
+				steps = append(steps, fmt.Sprintf("(SW %s %s %s %s)", cqNat(vi), cqN(uint64(max(op.Room, 0))), o.Coq(), held))
+				if roomFired {
+					tags["write-failed-part-way="+writeErrNames[((op.ErrKind%len(writeErrNames))+len(writeErrNames))%len(writeErrNames)]] = true
+					if o.Kind == "ok" {
+						tags["render-succeeded-after-failed-write"] = true
+					}
+				}
+			} else {
+				steps = append(steps, "(S0 "+cqPair(cqNat(vi), o.Coq())+")")
+			}
 			key += fmt.Sprintf("|%d:%s", vi, o.Kind)
 			ra := viewRefusedAfter(v)
 			expect := "succeeds"
@@ -417,9 +458,19 @@ func shrinkC05Session(ss C05Session) []C05Session {
 		out = append(out, c)
 	}
 	for i, op := range ss.Ops {
-		if op.Op == "render" && op.Via != 0 {
+		if op.Op == "render" && op.Via != 0 && op.Via < nBufVias {
 			c := clone()
 			c.Ops[i].Via = 0
+			out = append(out, c)
+		}
+		if op.Op == "render" && op.Via == viaRoomStringWriter {
+			c := clone()
+			c.Ops[i].Via = viaRoom
+			out = append(out, c)
+		}
+		if op.Op == "render" && op.Via >= nBufVias && op.ErrKind > 1 {
+			c := clone()
+			c.Ops[i].ErrKind = 1
 			out = append(out, c)
 		}
 		for j, cell := range op.Cells {
@@ -428,9 +479,14 @@ func shrinkC05Session(ss C05Session) []C05Session {
 				c.Ops[i].Cells = append(c.Ops[i].Cells[:j:j], c.Ops[i].Cells[j+1:]...)
 				out = append(out, c)
 			}
-			if len(cell.B) > 0 {
+			if len(cell.B) > 0 && cell.K == "str" {
 				c := clone()
 				c.Ops[i].Cells[j] = Str(string(cell.B[:len(cell.B)/2]))
+				out = append(out, c)
+			}
+			if cell.K != "str" && op.Op != "meta" {
+				c := clone()
+				c.Ops[i].Cells[j] = Str("x")
 				out = append(out, c)
 			}
 		}
@@ -586,8 +642,11 @@ func randSession(r *RNG, text func(*RNG) ItemSpec) C05Session {
 			ss.Ops = append(ss.Ops, SessOp{Op: "extend", T: t, Row: r.Intn(nrows[t]), Cells: sessCellsGen(r, 1+r.Intn(2), text)})
 		case x < 64:
 			ss.Ops = append(ss.Ops, SessOp{Op: "faulty", T: t, FailAt: r.Intn(12)})
+		case x < 70:
+			// state that is not content (c05_r6.go)
+			ss.Ops = append(ss.Ops, SessOp{Op: "meta", T: t, Kind: r.Intn(len(metaKindNames)), Row: r.Intn(4), Col: r.Intn(5), Cells: sessCellsGen(r, 1, text)})
 		default:
-			ss.Ops = append(ss.Ops, SessOp{Op: "render", T: t, Via: r.Intn(nVias)})
+			ss.Ops = append(ss.Ops, SessOp{Op: "render", T: t, Via: r.Intn(nVias), Room: r.Intn(50), ErrKind: r.Intn(len(writeErrNames))})
 		}
 	}
 	// every table is rendered at the end, through the string-returning paths
@@ -605,8 +664,8 @@ func genC05Sessions(r *RNG, tier string, text func(*RNG) ItemSpec) []json.RawMes
 	// entry point for the refused render x every entry point for the next one
 	for _, hdr := range []bool{false, true} {
 		for before := 0; before <= 2; before++ {
-			for vf := 0; vf < nVias; vf++ {
-				for vn := 0; vn < nVias; vn++ {
+			for vf := 0; vf < nBufVias; vf++ {
+				for vn := 0; vn < nBufVias; vn++ {
 					add(refusalSession(r, 0, hdr, before, vf, vn, text))
 					if viaIsString(vf) && viaIsString(vn) {
 						add(refusalSession(r, 1, hdr, before, vf, vn, text))
